@@ -13,7 +13,7 @@ import (
 	"verifharness/vf"
 )
 
-const rule = "Case = 1-2 tables (SQL-created with skip-list indexes; catalog-created with none/skip-list per column; catalog-created with a unique-skip-list, B-tree or hash index on the key column), 0-14 committed setup statements, a victim transaction of 1-10 statements (multi-row inserts, in-place / growing / shrinking updates, deletes, repeated changes of the same rows, on indexed and non-indexed columns) that is aborted explicitly or by a lock conflict provoked by a second transaction that read-locks every row before the victim's last statement, then 0-4 committed follow-up statements; in-memory and file mode, pools from the minimum. Oracle (round trip): after the abort every table equals the pre-transaction model through sequential scan, and for every indexed column point lookups on present/absent keys and closed/half-open/full range scans through explicit index plans (and the SQL optimizer path for skip-list tables) give the pre-transaction answers; after the follow-ups tables and indexes equal the model. Non-trivial = the victim performed at least one successful write before the abort."
+const rule = "Case = 1-2 tables (SQL-created with skip-list indexes; catalog-created with none/skip-list per column; catalog-created with a unique-skip-list, B-tree or hash index on the key column), 0-14 committed setup statements, a victim transaction of 1-10 statements (multi-row inserts, in-place / growing / shrinking updates, deletes, repeated changes of the same rows, on indexed and non-indexed columns) that is aborted explicitly or by a lock conflict provoked by a second transaction that read-locks every row before the victim's last statement, then 0-4 committed follow-up statements; in-memory and file mode, pools from the minimum. In a third of the cases other transactions insert rows into the same tables and commit while the victim is open (the expected state then includes their rows). Oracle (round trip): after the abort every table equals the pre-transaction model through sequential scan, and for every indexed column point lookups on present/absent keys and closed/half-open/full range scans through explicit index plans (and the SQL optimizer path for skip-list tables) give the pre-transaction answers; after the follow-ups tables and indexes equal the model. Non-trivial = the victim performed at least one successful write before the abort."
 
 var assumptions = []string{
 	"statements follow what each index kind documents (unique keys on unique indexes, no UPDATE on hash-indexed tables, B-tree/hash/unique tables modified through the sequential plan)",
